@@ -432,8 +432,8 @@ pub fn replay(v: &serde_json::Value) -> Option<Result<(), String>> {
 
 pub fn run(ctx: &Ctx) -> Result<Ev, String> {
     let shards = 32usize;
-    let per = (if ctx.thorough { 20 } else { 1 } * 18_000 / shards) as u32;
-    let per_m = (if ctx.thorough { 20 } else { 1 } * 8_000 / shards) as u32;
+    let per = (if ctx.thorough { 20 } else { 4 } * 18_000 / shards) as u32;
+    let per_m = (if ctx.thorough { 20 } else { 4 } * 8_000 / shards) as u32;
     let seed = ctx.seed;
     let mut total = par::run_shards("C15", shards, |s| par::prop_shard("C15", seed, s, per, &fault_case(), |c, ev| test_fault(c, ev)));
     let m = par::run_shards("C15", shards, |s| par::prop_shard("C15", seed, 1000 + s, per_m, &msg_case(), |c, ev| test_msg(c, ev)));
